@@ -64,7 +64,7 @@ func decHeader(src []byte) ([]byte, error, []byte, string) {
 		return rest, err, nil, ""
 	}
 	extra := fmt.Sprintf("m=%d x=%08x r=%d list=%s size=%d", h.AggregationMethod(), math.Float32bits(h.XFilesFactor()), h.MaxRetention(), h.ArchiveInfoList(), h.ExpectedFileSize())
-	return rest, nil, h.AppendTo(nil), extra
+	return rest, nil, c14Enc(h.AppendTo), extra
 }
 
 func decSeries(src []byte) ([]byte, error, []byte, string) {
@@ -76,7 +76,7 @@ func decSeries(src []byte) ([]byte, error, []byte, string) {
 	if err != nil {
 		return rest, err, nil, ""
 	}
-	return rest, nil, ts.AppendTo(nil), fmt.Sprintf("from=%d until=%d step=%d n=%d", ts.FromTime(), ts.UntilTime(), ts.Step(), len(ts.Values()))
+	return rest, nil, c14Enc(ts.AppendTo), fmt.Sprintf("from=%d until=%d step=%d n=%d", ts.FromTime(), ts.UntilTime(), ts.Step(), len(ts.Values()))
 }
 
 func decPoints(src []byte) ([]byte, error, []byte, string) {
@@ -89,7 +89,7 @@ func decPoints(src []byte) ([]byte, error, []byte, string) {
 	if err != nil {
 		return rest, err, nil, ""
 	}
-	return rest, nil, pp.AppendTo(nil), fmt.Sprintf("n=%d", len(pp))
+	return rest, nil, c14Enc(pp.AppendTo), fmt.Sprintf("n=%d", len(pp))
 }
 
 func decPoint(src []byte) ([]byte, error, []byte, string) {
@@ -101,7 +101,7 @@ func decPoint(src []byte) ([]byte, error, []byte, string) {
 	if err != nil {
 		return rest, err, nil, ""
 	}
-	return rest, nil, p.AppendTo(nil), fmt.Sprintf("t=%d v=%016x", p.Time, math.Float64bits(float64(p.Value)))
+	return rest, nil, c14Enc(p.AppendTo), fmt.Sprintf("t=%d v=%016x", p.Time, math.Float64bits(float64(p.Value)))
 }
 
 func decValue(src []byte) ([]byte, error, []byte, string) {
@@ -113,7 +113,7 @@ func decValue(src []byte) ([]byte, error, []byte, string) {
 	if err != nil {
 		return rest, err, nil, ""
 	}
-	return rest, nil, v.AppendTo(nil), fmt.Sprintf("%016x", math.Float64bits(float64(v)))
+	return rest, nil, c14Enc(v.AppendTo), fmt.Sprintf("%016x", math.Float64bits(float64(v)))
 }
 
 func decTimestamp(src []byte) ([]byte, error, []byte, string) {
@@ -125,7 +125,7 @@ func decTimestamp(src []byte) ([]byte, error, []byte, string) {
 	if err != nil {
 		return rest, err, nil, ""
 	}
-	return rest, nil, t.AppendTo(nil), fmt.Sprint(uint32(t))
+	return rest, nil, c14Enc(t.AppendTo), fmt.Sprint(uint32(t))
 }
 
 func decDuration(src []byte) ([]byte, error, []byte, string) {
@@ -137,7 +137,7 @@ func decDuration(src []byte) ([]byte, error, []byte, string) {
 	if err != nil {
 		return rest, err, nil, ""
 	}
-	return rest, nil, d.AppendTo(nil), fmt.Sprint(int32(d))
+	return rest, nil, c14Enc(d.AppendTo), fmt.Sprint(int32(d))
 }
 
 func decArchiveInfo(src []byte) ([]byte, error, []byte, string) {
@@ -149,7 +149,34 @@ func decArchiveInfo(src []byte) ([]byte, error, []byte, string) {
 	if err != nil {
 		return rest, err, nil, ""
 	}
-	return rest, nil, a.AppendTo(nil), fmt.Sprintf("s=%d n=%d", a.SecondsPerPoint(), a.NumberOfPoints())
+	return rest, nil, c14Enc(a.AppendTo), fmt.Sprintf("s=%d n=%d", a.SecondsPerPoint(), a.NumberOfPoints())
+}
+
+// c14ProbeAppend: when set, c14Enc also encodes onto non-empty buffers (an earlier message of another kind, with and
+// without spare capacity) and records in c14AppendIssue when that does not give "what was there + the encoding".
+var c14ProbeAppend bool
+var c14AppendIssue string
+
+func c14Enc(appendTo func([]byte) []byte) []byte {
+	base := appendTo(nil)
+	if !c14ProbeAppend {
+		return base
+	}
+	first := []byte("\x00\x00\x00\x02\x7f\xf8\x00\x00\x00\x00\x00\x01earlier message, longer than any fixed header part")
+	for _, spare := range []int{0, 7, 4096} {
+		dst := make([]byte, len(first), len(first)+spare)
+		copy(dst, first)
+		out := appendTo(dst)
+		if len(out) < len(first) || !bytes.Equal(out[:len(first)], first) {
+			c14AppendIssue = fmt.Sprintf("appending to a buffer holding an earlier %d-byte message (spare capacity %d) damaged that message", len(first), spare)
+			return base
+		}
+		if !bytes.Equal(out[len(first):], base) {
+			c14AppendIssue = fmt.Sprintf("appended to a buffer holding an earlier %d-byte message (spare capacity %d) the encoding is %x, alone it is %x", len(first), spare, out[len(first):], base)
+			return base
+		}
+	}
+	return base
 }
 
 var decoders = map[string]func([]byte) ([]byte, error, []byte, string){
@@ -296,10 +323,16 @@ func c14Eval(k codec, cut int, trailer []byte) (sig, desc string, evals int64) {
 		var rest, reenc []byte
 		var err error
 		var extra string
-		if p, txt := fw.Guard(func() { rest, err, reenc, extra = dec(src) }); p {
+		c14ProbeAppend, c14AppendIssue = len(trailer) == 0, ""
+		p, txt := fw.Guard(func() { rest, err, reenc, extra = dec(src) })
+		c14ProbeAppend = false
+		if p {
 			return "C14/" + k.name + "/panic", "decoding a valid encoding panicked: " + firstLine(txt), 1
 		}
 		evals = 1
+		if c14AppendIssue != "" {
+			return "C14/" + k.name + "/append-to-nonempty-buffer", fmt.Sprintf("%s %x: %s", k.name, full, c14AppendIssue), evals
+		}
 		if err != nil {
 			return "C14/" + k.name + "/valid-encoding-rejected", fmt.Sprintf("%s: decoding its own encoding %x (+%d trailing bytes) failed: %v", k.name, full, len(trailer), err), evals
 		}
